@@ -666,10 +666,12 @@ Proof.
   assert (s_status st2 = s_status st /\ s_tasks st2 = s_tasks st) as [E2s E2t]
     by (unfold st2; destruct (negb (is_nil new_fail)); split; reflexivity).
   destruct (status_eqb x RUNNING). { expose. split; [apply legal_quiet; solve_quiet|exact I]. }
-  destruct (can_transition (s_status st2) x) eqn:C; cbn [negb]; [|exact I].
-  assert (stage_legal st (st_end st2 x)) as L.
+  cbn zeta.
+  set (x2 := if status_eqb x FAILED_CONTINUE && y_blocking (s_syn st2) then TERMINAL else x).
+  destruct (can_transition (s_status st2) x2) eqn:C; cbn [negb]; [|exact I].
+  assert (stage_legal st (st_end st2 x2)) as L.
   { split; [simpl; rewrite <- E2s; exact C|simpl; rewrite E2t; apply tasks_legal_refl]. }
-  destruct (status_eqb x SUCCEEDED || status_eqb x FAILED_CONTINUE || status_eqb x SKIPPED).
+  destruct (status_eqb x2 SUCCEEDED || status_eqb x2 FAILED_CONTINUE || status_eqb x2 SKIPPED).
   - cbn [h_commits ok].
     destruct (benign_chain _ (benign_join_tracking s i (downstream s i)) (w_stages s) (w_status s)) as [Ch [Sm Wf]].
     apply chain_legal_app; [exact Ch|]. rewrite Wf.
@@ -695,8 +697,10 @@ Proof.
   set (zombie := status_eqb (s_status st) RUNNING && (s_plan_pending st || (is_nil (s_tasks st) && is_nil (children s i)))).
   destruct (negb (start_stage_fresh (s_status st)) && negb zombie) eqn:E0; [exact I|].
   destruct (should_skip st). { expose. split; [apply legal_quiet; solve_quiet|exact I]. }
+  destruct (milestone_expired s st). { expose. split; [apply legal_quiet; solve_quiet|exact I]. }
   destruct (mutex_blocked s i st). { expose. split; [apply legal_quiet; solve_quiet|exact I]. }
   destruct (status_eqb (s_status st) NOT_STARTED && choice_claimed s i st). { expose. split; [apply legal_quiet; solve_quiet|exact I]. }
+  destruct (y_expired (s_syn st)). { expose. split; [apply legal_quiet; solve_quiet|exact I]. }
   set (m := match s_mutex st with Some k0 => acquire_claim s true k0 i true | None => (true, w_claims s) end).
   destruct (fst m); cbn [negb]. 2:{ expose. split; [apply legal_quiet; solve_quiet|exact I]. }
   set (c := match s_choice st with Some g => acquire_claim (with_claims (snd m) s) false g i false | None => (true, snd m) end).
